@@ -244,6 +244,33 @@ func forEachInput(e Entry, thorough bool, rng *rand.Rand, fn func(class string, 
 				}
 			}
 		}
+		// two length/size fields moved in opposite directions, so that a check on their sum (or on
+		// the total size they describe) still holds while each field is wrong on its own
+		if len(s) >= 12 && len(s) <= 4096 {
+			lim := len(s) - 4
+			if lim > 44 {
+				lim = 44
+			}
+			for p := 0; p <= lim; p += 4 {
+				for q := 0; q <= lim; q += 4 {
+					if p == q {
+						continue
+					}
+					for _, d := range []uint32{1, 2, 3, 4, 5, 8, 16, 255, 256} {
+						m := append([]byte{}, s...)
+						a := uint32(m[p]) | uint32(m[p+1])<<8 | uint32(m[p+2])<<16 | uint32(m[p+3])<<24
+						b := uint32(m[q]) | uint32(m[q+1])<<8 | uint32(m[q+2])<<16 | uint32(m[q+3])<<24
+						if b < d {
+							continue
+						}
+						a, b = a+d, b-d
+						m[p], m[p+1], m[p+2], m[p+3] = byte(a), byte(a>>8), byte(a>>16), byte(a>>24)
+						m[q], m[q+1], m[q+2], m[q+3] = byte(b), byte(b>>8), byte(b>>16), byte(b>>24)
+						fn("sum-pair", p, m)
+					}
+				}
+			}
+		}
 		// corruption combined with truncation (a length field raised, then the tail cut)
 		for _, p := range pos {
 			if len(s) > 4 && p%3 == 0 {
